@@ -38,7 +38,7 @@ doc = {
     "engines": [
         {"name": "K", "path": "/verif/harness/world", "serves_properties": sorted(k for k in CHECKS if "K" in TEXTS[k]["engine"]), "kind_free_text": "rapid-generated operation histories executed through the message router / keeper API / BeginBlock on cache branches of one in-process app, judged by shadow-ledger and big-integer reference-model monitors"},
         {"name": "D", "path": "/verif/harness/world/engine_d.go", "serves_properties": ["C03", "C04", "C09"], "kind_free_text": "direct construction of order books / vesting schedules in the collections, function under test called directly, thousands of cases per second"},
-        {"name": "A", "path": "/verif/harness/world/engine_a.go", "serves_properties": ["C07", "C10", "C14", "C18"], "kind_free_text": "fresh application per execution (IAVL app hash, deterministic genesis), signed transactions through FinalizeBlock + Commit"},
+        {"name": "A", "path": "/verif/harness/world/engine_a.go", "serves_properties": ["C07", "C08", "C10", "C14", "C18"], "kind_free_text": "fresh application per execution (IAVL app hash, deterministic genesis), signed transactions through FinalizeBlock + Commit"},
         {"name": "hooks", "path": "/verif/harness/world/c17.go", "serves_properties": ["C17"], "kind_free_text": "keeper built with instrumented listeners; fault plan (method, position, occurrence)"},
         {"name": "CLI", "path": "/verif/harness/cli", "serves_properties": ["C10", "C20"], "kind_free_text": "test binary linking cmd/fundraisingd/cmd: in-process root command, loopback gRPC recorder, real binary --help"},
     ],
